@@ -14,7 +14,12 @@ func C18_reader_next_message() {
 	server := vChoose("side", 2) == 0
 	wire, items := vGenStream(server, 2, 1, false)
 	src := vNewSrc(wire, 0, "chunk")
-	rd := &Reader{Source: &src, State: vSide(server), CheckUTF8: vBool("utf8")}
+	// the connection's own configuration bits (an extension was negotiated) are not message state
+	st := vSide(server)
+	if vChoose("extended", 2) == 1 {
+		st |= ws.StateExtended
+	}
+	rd := &Reader{Source: &src, State: st, CheckUTF8: vBool("utf8")}
 	rd.OnIntermediate = func(h ws.Header, r io.Reader) error { return nil }
 	for n := range items {
 		_, err := rd.NextFrame()
@@ -35,7 +40,7 @@ func C18_reader_next_message() {
 		fresh := &Reader{}
 		same := vAnd(rd.opCode == fresh.opCode, vAnd(rd.frame == nil, vAnd(rd.raw.N == 0, rd.raw.R == nil)))
 		same = vAnd(same, vAnd(rd.utf8.state == 0, vAnd(rd.utf8.codep == 0, rd.utf8.accepted == 0)))
-		same = vAnd(same, rd.State == vSide(server))
+		same = vAnd(same, rd.State == st)
 		vAssert(same, "reader.message_state_as_new")
 	}
 }
